@@ -347,7 +347,7 @@ def run(prop, tier, repo, outdir, seed):
 REPLAY_BINS = {
     "C05": [("c05_stall", []), ("c_run", [], ["C05"])],
     "C04": [("c04_empty", []), ("c_sched", [], ["C04"]), ("c_sched", [], ["C04", "--exhaustive"]), ("c_run", [], ["C04"]), ("c05_stall", []), ("c08_interrupt", ["--features", "interruptible"])],
-    "C02": [("c_sched", [], ["C02"]), ("c_sched", [], ["C02", "--exhaustive"]), ("c_run", [], ["C02"]), ("c05_stall", [], ["C02"])],
+    "C02": [("c_sched", [], ["C02"]), ("c_sched", [], ["C02", "--exhaustive"]), ("c_run", [], ["C02"]), ("c05_stall", [], ["C02"]), ("c16_edges", [])],
     "C03": [("c_sched", [], ["C03"]), ("c_sched", [], ["C03", "--exhaustive"]), ("c_run", [], ["C03"]), ("c05_stall", [], ["C03"])],
     "C07": [("c_run", [], ["C07"])],
     "C08": [("c08_interrupt", ["--features", "interruptible"])],
@@ -356,7 +356,7 @@ REPLAY_BINS = {
     "C18": [("c18_pops", ["--features", "hooks"])],
     "C13": [("c13_ranks", [])],
     "C11": [("c11_build", [])],
-    "C01": [("c11_build", []), ("c_sched", [], ["C01"]), ("c_sched", [], ["C01", "--exhaustive"]), ("c_run", [], ["C01"])],
+    "C01": [("c16_edges", []), ("c11_build", []), ("c_sched", [], ["C01"]), ("c_sched", [], ["C01", "--exhaustive"]), ("c_run", [], ["C01"])],
     "C06": [("c11_build", []), ("c_sched", [], ["C06"]), ("c_sched", [], ["C06", "--exhaustive"])],
     "C12": [("c11_build", [])],
     "C14": [("c14_seq", [])],
